@@ -40,6 +40,12 @@ def run_case(i, tier, seed):
     blank_il = i % 5 == 0
     maxl = 40 if tier == "quick" else 200
     lines = rng.choice([1, 2, rng.randrange(1, 12), rng.randrange(1, maxl + 1)])
+    rpc = rng.choice([1, 3, 1024])
+    if i % 10 == 7:
+        # per-line metadata of images with more lines than one request covers: request sizes of 128 and more lines, with a
+        # last request that holds only one or two lines
+        lines = rng.choice([129, 130, 257, rng.randrange(131, 300)])
+        rpc = rng.choice([128, lines - 1, lines - 2, 256 if lines > 256 else 128])
     names = gen.product_names(level, pols=("HH", "VV")[: 1 + i % 2])
     files = {}
     for k, n in enumerate(names["imgs"]):
@@ -61,7 +67,7 @@ def run_case(i, tier, seed):
     n = 0
     try:
         try:
-            tree = harness.open_tree(url, use_cache=False, records_per_chunk=rng.choice([1, 3, 1024]))
+            tree = harness.open_tree(url, use_cache=False, records_per_chunk=rpc)
             for name in names["imgs"]:
                 k, _ = treecheck.check_image_group(tree, name, files[name], problems)
                 n += k
